@@ -18,7 +18,7 @@ Definition strip_id (s : step) : step :=
 (* Appendix B.5, written down once: first match wins.  Guards: 0 rgb_led_names, 1 buzzer_names,
    2 servo_names, 3 dc_motor_names, 4 lcd_names *)
 Definition expected_chain : list step := [
-  StImports [(0, RE_IMPORT_LED); (0, RE_IMPORT_RGB_LED); (0, RE_IMPORT_SERVO); (0, RE_IMPORT_DC_MOTOR); (0, RE_IMPORT_BUZZER); (0, RE_IMPORT_SLEEP); (0, RE_IMPORT_SERIAL); (0, RE_IMPORT_TARGET); (0, RE_IMPORT_ULTRASONIC); (0, RE_IMPORT_BUTTON); (0, RE_IMPORT_LCD)];
+  StImports [(0, RE_IMPORT_ANY)];       (* since the repair of the silent drops: _import_end, ONE pattern for every import statement *)
   StEq [98;114;101;97;107];
   StEq [99;111;110;116;105;110;117;101];
   StPrefix [114;101;116;117;114;110];
@@ -181,3 +181,51 @@ Lemma led_handler_unguarded :
   is_rx_handler RE_LED_ON (hd_of (dispatch chain false [[]; []; []; []; []] (line_call0 [120;121;122] s_on [] [] [] []))) = true /\
   is_rx_handler RE_RGB_LED_ON (hd_of (dispatch chain false [[[120;121;122]]; []; []; []; []] (line_call0 [120;121;122] s_on [] [] [] []))) = true.
 Proof. split; vm_compute; reflexivity. Qed.
+
+(* ================================================================ the end of the loop (repaired: nothing is dropped) *)
+Definition s_pass : text := [112;97;115;115].
+
+(* what the CURRENT source does at the end of the loop, read by the translator: `pass` and global declarations are
+   skipped, a failed expression translation raises, anything else raises *)
+Lemma tail_pinned :
+  tail_benign_eq = [s_pass] /\ map snd tail_benign_rx = [RE_GLOBAL] /\ tail_rejects = true /\ tail_expr_failure_rejects = true.
+Proof. repeat split; vm_compute; reflexivity. Qed.
+
+(* REPAIRED (was: every line reaching the tail that is not an expression is dropped): no line is dropped *)
+Lemma tail_never_drops : forall isexpr line,
+  tail_class_of tail_benign_eq tail_benign_rx tail_rejects isexpr line <> TDropped.
+Proof.
+  intros isexpr line. unfold tail_class_of. change tail_rejects with true.
+  destruct isexpr; [discriminate|]. destruct (tail_benign tail_benign_eq tail_benign_rx line); discriminate.
+Qed.
+
+(* ... a line that no recogniser took and that is not an expression is rejected unless it is exactly `pass` or a
+   global declaration *)
+Lemma tail_rejects_unrecognised : forall line,
+  tail_class_of tail_benign_eq tail_benign_rx tail_rejects false line = TReject
+  <-> (line <> s_pass /\ rx_match RE_GLOBAL line = false).
+Proof.
+  intro line. unfold tail_class_of, tail_benign.
+  assert (Q : existsb (text_eqb line) tail_benign_eq = text_eqb line s_pass || false) by reflexivity.
+  assert (R : existsb (fun p => rx_match (snd p) line) tail_benign_rx = rx_match RE_GLOBAL line || false) by reflexivity.
+  rewrite Q, R, !orb_false_r. change tail_rejects with true.
+  destruct (text_eqb line s_pass) eqn:E.
+  - apply text_eqb_eq in E. cbn [orb]. split; [discriminate|]. intros [H _]. contradiction.
+  - assert (N : line <> s_pass).
+    { intro H. subst line. vm_compute in E. discriminate. }
+    cbn [orb]. destruct (rx_match RE_GLOBAL line); split; try discriminate; auto.
+    intros [_ H]. discriminate.
+Qed.
+
+(* `global x`, `global a ,b_2` are skipped; `globalx`, `global`, `global x; y = 5`, `del x`, `pass x`, `if(x>1):` are rejected *)
+Lemma tail_examples :
+  tail_class_of tail_benign_eq tail_benign_rx tail_rejects false s_pass = TBenign /\
+  tail_class_of tail_benign_eq tail_benign_rx tail_rejects false [103;108;111;98;97;108;32;120] = TBenign /\
+  tail_class_of tail_benign_eq tail_benign_rx tail_rejects false [103;108;111;98;97;108;32;97;32;44;98;95;50] = TBenign /\
+  tail_class_of tail_benign_eq tail_benign_rx tail_rejects false [103;108;111;98;97;108;120] = TReject /\
+  tail_class_of tail_benign_eq tail_benign_rx tail_rejects false [103;108;111;98;97;108] = TReject /\
+  tail_class_of tail_benign_eq tail_benign_rx tail_rejects false [103;108;111;98;97;108;32;120;59;32;121;32;61;32;53] = TReject /\
+  tail_class_of tail_benign_eq tail_benign_rx tail_rejects false [100;101;108;32;120] = TReject /\        (* del x *)
+  tail_class_of tail_benign_eq tail_benign_rx tail_rejects false [112;97;115;115;32;120] = TReject /\     (* pass x *)
+  tail_class_of tail_benign_eq tail_benign_rx tail_rejects false s_if_paren = TReject.
+Proof. repeat split; vm_compute; reflexivity. Qed.
